@@ -796,6 +796,13 @@ R9_RULES = [
             "let mut r9_m: usize = 0; while r9_m < r9_v.len() { let $y = r9_v[r9_m]; r9_m = r9_m + 1; $$b; } }"),
     ("R9e", "$$e . iter_mut ( ) . for_each ( | $x | {",
             "let mut r9_n: usize = 0; while r9_n < $$e.len() { let $x = &mut $$e[r9_n]; r9_n = r9_n + 1; {", "} ) ;", "} }"),
+    ("R9l", "$$e . iter ( ) . map ( | $x | $$b ) . collect :: < Vec < _ >> ( )",
+            "({ let mut r9_out = Vec::new(); let mut r9_n: usize = 0; while r9_n < $$e.len() { let $x = &$$e[r9_n]; r9_out.push($$b); r9_n = r9_n + 1; } r9_out })"),
+    ("R9m", "$$e . iter ( ) . map ( | $x | $$b ) . collect ( )",
+            "({ let mut r9_out = Vec::new(); let mut r9_n: usize = 0; while r9_n < $$e.len() { let $x = &$$e[r9_n]; r9_out.push($$b); r9_n = r9_n + 1; } r9_out })"),
+    ("R9n", "* $$e . iter_mut ( ) . find ( | $x | $$c ) . unwrap ( ) = $$v ;",
+            "{ let r9_v = $$v; let mut r9_k: usize = 0; let mut r9_found = false; while r9_k < $$e.len() && !r9_found { let $x = &$$e[r9_k]; if $$c { r9_found = true; } else { r9_k = r9_k + 1; } } "
+            "if !r9_found { vpanic(); } $$e[r9_k] = r9_v; }"),
     ("R9g", "$$e . iter ( ) . any ( | $x | $$c )",
             "({ let mut r9_any = false; let mut r9_k: usize = 0; while r9_k < $$e.len() && !r9_any { let $x = &$$e[r9_k]; if $$c { r9_any = true; } r9_k = r9_k + 1; } r9_any })"),
     ("R9i", "$$e . as_mut ( ) . and_then ( | $x | $x . pop_front ( ) )",
@@ -907,3 +914,57 @@ def apply_r9(text, rules_log):
             if changed:
                 break
     return text
+
+
+# ------------------------------------------------------------------ R21: await trace
+def trace_awaits(body, rules_log):
+    """R21: every `E.await` in an async fn becomes `({ let r21_f = E; proof { r21_trace = r21_trace.push(vawait_tag(&r21_f)); } r21_f.await })`
+    and the body starts with `let ghost mut r21_trace: Seq<AwaitTag> = Seq::empty();` -- the sequence of futures the
+    function has waited for is then available to its inserted assertions.  E is the postfix chain in front of `.await`."""
+    n_done = 0
+    while True:
+        toks = full_tokens(body)
+        sig = [i for i, t in enumerate(toks) if t.kind not in ("ws", "comment")]
+        hit = None
+        for q, i in enumerate(sig):
+            if toks[i].kind == "ident" and toks[i].text == "await" and q >= 2 and toks[sig[q - 1]].text == "." \
+                    and not (toks[sig[q - 2]].kind == "ident" and toks[sig[q - 2]].text == "r21_f"):
+                hit = q; break
+        if hit is None:
+            break
+        q = hit - 2          # last token of E
+        start = None
+        while q >= 0:
+            t = toks[sig[q]]
+            if t.kind == "punct" and t.text in (")", "]"):
+                # matching open
+                depth = 0; j = sig[q]
+                while j >= 0:
+                    if toks[j].kind == "punct" and toks[j].text in CLOSE: depth += 1
+                    elif toks[j].kind == "punct" and toks[j].text in OPEN:
+                        depth -= 1
+                        if depth == 0: break
+                    j -= 1
+                q = sig.index(j)
+                start = q
+                # a call/index: the callee path continues to the left
+                if q - 1 >= 0 and (toks[sig[q - 1]].kind == "ident" and toks[sig[q - 1]].text not in KEYWORDS or toks[sig[q - 1]].text in (")", "]", ">")):
+                    q -= 1; continue
+                break
+            if t.kind == "ident" and t.text not in KEYWORDS:
+                start = q
+                if q - 1 >= 0 and toks[sig[q - 1]].text in (".", "::"):
+                    q -= 2; continue
+                break
+            raise ExtractError("R21 refused: cannot delimit the awaited expression before `.await`")
+        if start is None:
+            raise ExtractError("R21 refused: cannot delimit the awaited expression before `.await`")
+        a, b = sig[start], sig[hit - 2] + 1
+        expr = "".join(t.text for t in toks[a:b])
+        body = ("".join(t.text for t in toks[:a]) + "({ let r21_f = " + expr + "; proof { r21_trace = r21_trace.push(vawait_tag(&r21_f)); } r21_f.await })"
+                + "".join(t.text for t in toks[sig[hit] + 1:]))
+        rules_log.append(("R21", f"`{norm(expr)[:120]}.await`: the awaited future is recorded in the ghost trace r21_trace before it is awaited"))
+        n_done += 1
+    first = body.index("{")
+    body = body[:first + 1] + "\n        let ghost mut r21_trace: Seq<AwaitTag> = Seq::empty();" + body[first + 1:]
+    return body
